@@ -22,7 +22,7 @@
 //                          a,b,..) call.  A variadic call needs the static
 //                          types, i.e. one template instantiation per type
 //                          tuple: arity 1 and 2 over every type that the
-//                          public entry point accepts (28), arity 3 over 11
+//                          public entry point accepts (27), arity 3 over 11
 //                          code-path representatives, arity 4 (thorough) over
 //                          6.  (gSerialize(buf,t1,rest...) is
 //                          reserve(gSized(all)); gSerializeObj(t1);
@@ -41,6 +41,10 @@
 //                          overload but no size overload cannot be serialised
 //                          through the documented entry point at all
 //                          (DESIGN 8-7: std::deque).
+//  E6 "compile-probes"     E4 sees declarations only; here the compiler is run
+//                          on gSerialize(buf,x) / gSized(x) / gDeserialize for
+//                          a list of type expressions (incl. pairs with
+//                          string / vector members, which E4 cannot judge).
 //  E5 "reuse-target"       gDeserialize into an object that already holds
 //                          another value of the same type.
 //  B1 "buffer-ops"         history BFS of SerializeBuffer / DeSerializeBuffer
@@ -351,7 +355,8 @@ TD_REGULAR_X(UserSer, true, HasSerializeFamily, "UserSer(tt_has_serialize)",
              UserSer(), UserSer{5, "name", {9, 8, 7}})
 TD_REGULAR_X(VecUS, true, SizedSeqFamily, "std::vector<UserSer>", VecUS{},
              VecUS{UserSer{1, "", {}}, UserSer{2, "two", {2, 2}}})
-TD_REGULAR(PairSV, true, "std::pair<std::string,std::vector<int>>",
+// gSized(std::pair<string,..>) does not compile (E6): internal write
+TD_REGULAR(PairSV, false, "std::pair<std::string,std::vector<int>>",
            PairSV("", VecI{}), PairSV("key", VecI{3, 1, 4}))
 TD_REGULAR(std::string, true, "std::string", std::string(), std::string("abc"),
            S100)
@@ -699,9 +704,9 @@ using AllTypes =
     TL<uint8_t, uint32_t, uint64_t, double, PairID, GPairID, GTupIDC, Pod,
        UserCopyable, std::string, VecI, VecU8, VecU64, VecPod, PodArrI,
        PodArrU64, VecS, VecP, VecVI, VecCA, GDeqI, GDeqS, galois::DynamicBitSet,
-       NestedS, NestedR, UserSer, VecUS, PairSV,
-       // no public gSerialize (E4): written through internal::gSerializeObj
-       DeqI, DeqS, CAtomI, GPairIS,
+       NestedS, NestedR, UserSer, VecUS,
+       // no public gSerialize (E4, E6): written through internal::gSerializeObj
+       DeqI, DeqS, CAtomI, GPairIS, PairSV,
        // read overload only / lazy write interface
        TupIDS, LazyVecI>;
 // every type above whose public gSerialize / gSized compile
@@ -709,7 +714,7 @@ using VarAll =
     TL<uint8_t, uint32_t, uint64_t, double, PairID, GPairID, GTupIDC, Pod,
        UserCopyable, std::string, VecI, VecU8, VecU64, VecPod, PodArrI,
        PodArrU64, VecS, VecP, VecVI, VecCA, GDeqI, GDeqS, galois::DynamicBitSet,
-       NestedS, NestedR, UserSer, VecUS, PairSV>;
+       NestedS, NestedR, UserSer, VecUS>;
 // one type per code path: 1-byte memcpy (shifts the alignment), 8-byte
 // memcpy, element-wise pair, string, linear sequence alignof 4 / alignof 8,
 // element-wise sequence, gdeque, bitset, raw nested buffer, user serialize()
@@ -1185,6 +1190,159 @@ static void entry_case(uint64_t idx, bool) {
 }
 
 // ---------------------------------------------------------------------------
+// E6: compile probes
+// ---------------------------------------------------------------------------
+// E4 can only see whether an overload is *declared*.  Whether
+// gSerialize(buf, x) / gSized(x) can be *instantiated* is decided here by
+// running the compiler (the one and the flags vlib/build.py uses, syntax
+// only) on a four-line translation unit per type and entry point, against
+// the tree named by $VERIF_REPO (default /repo, as in build.py).
+//   ISER  internal::gSerializeObj(buf, x)      DESER  gDeserialize(buf, x)
+//   SER   gSerialize(buf, x)                   SIZED  gSized(x)
+// Oracle: a type the header can write and read (ISER and DESER compile) can be
+// written and sized through the documented entry points (SER and SIZED
+// compile).  Types that fail ISER or DESER are unsupported, not defects.
+struct Probe {
+  const char* type;
+  const char* family; // violation key component
+};
+static const Probe PROBES[] = {
+    {"uint32_t", "scalar"}, // control: all four must compile
+    {"std::deque<int>", "std::deque<T>"},
+    {"galois::CopyableAtomic<int>", "galois::CopyableAtomic<T>"},
+    {"galois::Pair<int,std::string>",
+     "galois::Pair<T1,T2>-with-non-memory-copyable-member"},
+    {"std::pair<int,double>", "std::pair<scalar,scalar>"},
+    {"std::pair<int,std::pair<int,double>>", "std::pair<scalar,pair>"},
+    {"std::pair<int,std::string>", "std::pair<T1,T2>-with-string-member"},
+    {"std::pair<std::string,int>", "std::pair<T1,T2>-with-string-member"},
+    {"std::pair<int,std::vector<int>>", "std::pair<T1,T2>-with-vector-member"},
+    {"std::pair<std::string,std::vector<int>>",
+     "std::pair<T1,T2>-with-string-member"},
+    {"std::pair<int,galois::PODResizeableArray<int>>",
+     "std::pair<T1,T2>-with-PODResizeableArray-member"},
+    {"std::pair<int,galois::gdeque<int>>",
+     "std::pair<T1,T2>-with-gdeque-member"},
+    {"std::pair<int,galois::DynamicBitSet>", "std::pair<scalar,DynamicBitSet>"},
+    {"std::vector<std::pair<int,std::string>>", "std::vector<pair>"},
+    {"std::vector<std::vector<std::string>>", "std::vector<vector>"},
+    {"std::vector<std::deque<int>>", "std::vector<deque>"}, // unsupported
+    {"std::vector<bool>", "std::vector<bool>"},             // unsupported
+    {"std::tuple<int,double>", "std::tuple"},               // read only
+};
+static const int NPROBES = sizeof PROBES / sizeof PROBES[0];
+static const char* MODES[4] = {"ISER", "DESER", "SER", "SIZED"};
+
+struct ProbeResult {
+  bool ok[4];
+  std::string err[4];
+};
+static ProbeResult run_probe(const char* type, uint64_t tag) {
+  const char* repo = getenv("VERIF_REPO");
+  std::string R    = repo ? repo : "/repo";
+  std::string base = "/verif/build/tmp/c17-probe-" + std::to_string(getpid()) +
+                     "-" + std::to_string(tag);
+  {
+    FILE* f = fopen((base + ".cpp").c_str(), "w");
+    if (!f)
+      return ProbeResult{{false, false, false, false}, {"cannot write", "", "", ""}};
+    fprintf(f,
+            "#include \"galois/runtime/Serialize.h\"\n"
+            "using namespace galois::runtime;\nusing T = %s;\n"
+            "#ifdef ISER\nvoid f(SerializeBuffer& b, const T& x) { "
+            "internal::gSerializeObj(b, x); }\n#endif\n"
+            "#ifdef DESER\nvoid f(DeSerializeBuffer& b, T& x) { "
+            "gDeserialize(b, x); }\n#endif\n"
+            "#ifdef SER\nvoid f(SerializeBuffer& b, const T& x) { "
+            "gSerialize(b, x); }\n#endif\n"
+            "#ifdef SIZED\nsize_t f(const T& x) { return gSized(x); }\n#endif\n",
+            type);
+    fclose(f);
+  }
+  std::string src = base + ".cpp";
+  std::string inc[4] = {"-I/verif/build/gen/include",
+                        "-I" + R + "/libgalois/include",
+                        "-I" + R + "/libsupport/include",
+                        "-I" + R + "/libdist/include"};
+  pid_t pid[4];
+  for (int m = 0; m < 4; ++m) {
+    std::string def = std::string("-D") + MODES[m];
+    std::string out = base + "." + MODES[m] + ".err";
+    pid[m]          = fork();
+    if (pid[m] == 0) {
+      int fd = open(out.c_str(), O_WRONLY | O_CREAT | O_TRUNC, 0644);
+      if (fd >= 0) {
+        dup2(fd, 1);
+        dup2(fd, 2);
+        close(fd);
+      }
+      alarm(0);
+      execlp("g++", "g++", "-std=c++17", "-DGALOIS_USE_SCHED_SETAFFINITY",
+             "-DGALOIS_HAVE_PTHREAD", "-w", "-fsyntax-only", def.c_str(),
+             inc[0].c_str(), inc[1].c_str(), inc[2].c_str(), inc[3].c_str(),
+             src.c_str(), (char*)nullptr);
+      _exit(127);
+    }
+  }
+  ProbeResult r;
+  for (int m = 0; m < 4; ++m) {
+    int st = -1;
+    if (pid[m] > 0)
+      waitpid(pid[m], &st, 0);
+    r.ok[m]         = pid[m] > 0 && WIFEXITED(st) && WEXITSTATUS(st) == 0;
+    std::string out = base + "." + MODES[m] + ".err";
+    if (!r.ok[m]) {
+      FILE* f = fopen(out.c_str(), "r");
+      char line[500];
+      while (f && fgets(line, sizeof line, f))
+        if (strstr(line, "error")) {
+          r.err[m] = line;
+          break;
+        }
+      if (f)
+        fclose(f);
+      if (pid[m] > 0 && WIFEXITED(st) && WEXITSTATUS(st) == 127)
+        r.err[m] = "cannot run g++";
+    }
+    unlink(out.c_str());
+  }
+  unlink(src.c_str());
+  return r;
+}
+
+static void probe_case(uint64_t idx, bool) {
+  // environment check, once per process: the control must compile everywhere
+  static int env = -1;
+  if (env < 0) {
+    ProbeResult c = run_probe(PROBES[0].type, 1000);
+    env           = c.ok[0] && c.ok[1] && c.ok[2] && c.ok[3];
+    if (!env)
+      fprintf(stderr,
+              "c17: compile probes unavailable (control does not compile: "
+              "%s) - case is vacuous\n",
+              (c.err[0] + c.err[1] + c.err[2] + c.err[3]).c_str());
+  }
+  if (!env)
+    return;
+  const Probe& p = PROBES[idx];
+  ProbeResult r  = run_probe(p.type, idx);
+  sx::outcome(r.ok[0] + 2 * r.ok[1] + 4 * r.ok[2] + 8 * r.ok[3]);
+  if (r.ok[0] && r.ok[1])
+    sx::mark_nontrivial(); // the header can write and read the type
+  if (r.ok[0] && r.ok[1] && !(r.ok[2] && r.ok[3])) {
+    std::string e = r.ok[3] ? r.err[2] : r.err[3];
+    for (auto& ch : e)
+      if (ch == '\n')
+        ch = ' ';
+    fail("gSerialize(" + std::string(p.family) + "):does-not-compile",
+         "%s: internal::gSerializeObj(buf,x) and gDeserialize(buf,x) compile, "
+         "gSerialize(buf,x) %s, gSized(x) %s: %s",
+         p.type, r.ok[2] ? "compiles" : "DOES NOT COMPILE",
+         r.ok[3] ? "compiles" : "DOES NOT COMPILE", e.c_str());
+  }
+}
+
+// ---------------------------------------------------------------------------
 // E5: read into an object that already holds a value
 // ---------------------------------------------------------------------------
 // Composite targets with a std::string member read through the library
@@ -1546,6 +1704,16 @@ int main(int argc, char** argv) {
     c.run   = entry_case;
     c.describe = [](uint64_t idx, bool) {
       return std::string(types()[idx].name);
+    };
+    en.push_back(c);
+  }
+  {
+    sx::EnumCase c;
+    c.name  = "compile-probes: public entry points instantiate per type";
+    c.count = [](bool) { return (uint64_t)NPROBES; };
+    c.run   = probe_case;
+    c.describe = [](uint64_t idx, bool) {
+      return std::string(PROBES[idx].type);
     };
     en.push_back(c);
   }
